@@ -473,7 +473,11 @@ func (db *BoltDB) GetKeysetCounter(keysetId string) uint32 {
 				if err != nil {
 					return err
 				}
-				counter = keyset.Counter
+				// the same mint (keyset) could be stored under more than one url.
+				// The counter is the highest one so that it is never reused
+				if keyset.Counter > counter {
+					counter = keyset.Counter
+				}
 				keysetFound = true
 				return nil
 			}
